@@ -69,10 +69,30 @@ def replay(pid, path):
     w = payload.get('witness') or payload
     suite, inp = w.get('suite'), w.get('input')
     if not suite or inp is None:
-        print('replay file names obligation %r of unit %r; it carries no concrete input (no-failing-input-found)'
-              % (payload.get('obligation'), payload.get('unit')))
+        # no concrete input: the replay re-generates the failed obligation from the current tree and asks the verifier again
+        from . import verus_run, kani_run
+        print('replay of obligation %r of unit %r (no concrete input: no-failing-input-found)' % (payload.get('obligation'), payload.get('unit')))
+        if payload.get('kind') == 'V' and payload.get('group'):
+            outdir = os.path.join(VERIF, 'evidence', 'extracted')
+            r = verus_run.run_group(payload['group'], outdir)
+            same = [f for f in r['failures'] if f.get('unit') == payload.get('unit')]
+            print('verus %s: %s' % (r['status'], r['reason']))
+            for f in same:
+                print(f.get('rendered', '')[:1500])
+            if same:
+                print('VIOLATION property=%s replay=%s no-failing-input-found' % (pid, path))
+                return 1
+            return 0 if r['status'] == 'proved' else 2
+        if payload.get('kind') == 'K':
+            r = kani_run.run([payload.get('unit')], 'quick')
+            h = r['harnesses'][0] if r.get('harnesses') else {}
+            print('kani %s: %s' % (payload.get('unit'), h.get('status')))
+            if h.get('status') == 'failed':
+                print('VIOLATION property=%s replay=%s no-failing-input-found' % (pid, path))
+                return 1
+            return 0 if h.get('status') == 'ok' else 2
         print(payload.get('verus_output', ''))
-        return 1
+        return 2
     exe, err = build()
     if exe is None:
         print('cannot build: ' + err)
